@@ -19,6 +19,8 @@ import (
 
 const verifDir = "/verif"
 
+var replayBase string
+
 type finding struct {
 	Status     string `json:"status"`
 	Property   string `json:"property"`
@@ -100,6 +102,7 @@ func cmdCheck(args []string) {
 	spec := fs.String("spec", "/verif/spec", "spec library")
 	noEvidence := fs.Bool("no-evidence", false, "do not write the evidence file (used by selftest)")
 	baseline := fs.Bool("write-expected", false, "record the set of stable obligation names as expected")
+	replayDirFlag := fs.String("replay-dir", "", "directory for replay files (default /verif/replays/<id>)")
 	fs.Parse(args)
 	if *prop == "" {
 		usage()
@@ -115,6 +118,7 @@ func cmdCheck(args []string) {
 	w := load(*repo, *spec)
 	out := runProperty(w, *prop, *tier, *repo)
 	out.wall = time.Since(t0).Seconds()
+	replayBase = *replayDirFlag
 	code := report(w, out, seed, !*noEvidence, *baseline)
 	os.Exit(code)
 }
@@ -195,6 +199,9 @@ func report(w *vc.World, out *checkOutcome, seed int, writeEvidence, writeExpect
 	}
 	expectedPath := filepath.Join(verifDir, "expected", prop+".txt")
 	replayDir := filepath.Join(verifDir, "replays", prop)
+	if replayBase != "" {
+		replayDir = filepath.Join(replayBase, prop)
+	}
 
 	proved, total := 0, 0
 	bySolver := map[string]int{}
